@@ -1,7 +1,9 @@
 """C12 — Index is a persistent insertion-ordered dictionary.
 
 Mapping-operation sequences on the real Index (native and composite keys, inline
-and file-backed values) against DC.Model.Layers.Index; acceptor:
+and file-backed values; update, key/value/item views, == and != with ordered
+and unordered mappings that are near misses of the contents, pickle/reopen
+handles) against DC.Model.Layers.Index; acceptor:
 collections.OrderedDict (keys under the documented key equality)."""
 import collections
 
@@ -16,10 +18,19 @@ VALS = [0, 'v', b'y' * 20, None, [1] * 9, 2.5]
 def gen_history(rng, length):
     cfg = {'mfs': rng.choice([8, 16]), 'proto': rng.choice([2, 4, 5])}
     ops = []
+    mirror = collections.OrderedDict()
     for _ in range(length):
         m = rng.choices(['setitem', 'getitem', 'delitem', 'setdefault', 'pop', 'popitem', 'peekitem', 'len', 'iter', 'riter',
-                         'items', 'clear'], [8, 6, 3, 3, 3, 2, 2, 2, 2, 1, 2, 0.4])[0]
+                         'items', 'clear', 'update', 'keys', 'values', 'eq', 'ne', 'pickle', 'reopen'],
+                        [8, 6, 3, 3, 3, 2, 2, 2, 2, 1, 2, 0.4, 2, 1, 1, 3, 1.5, 0.5, 0.5])[0]
         op = {'m': m, 'now': 1000}
+        if m == 'update':
+            op['how'] = rng.choice(['pairs', 'dict'])
+            pairs = [(rng.choice(KEYS), rng.choice(VALS)) for _ in range(rng.randint(0, 4))]
+            op['pairs'] = list(dict(pairs).items()) if op['how'] == 'dict' else pairs
+        if m in ('eq', 'ne'):
+            op['ordered'] = rng.choice([0, 1])
+            op['pairs'] = None      # filled in from the mirror
         if m in ('setitem', 'getitem', 'delitem', 'setdefault', 'pop'):
             op['k'] = rng.choice(KEYS)
         if m in ('setitem', 'setdefault'):
@@ -28,9 +39,50 @@ def gen_history(rng, length):
             op['hasdefault'] = rng.choice([0, 1])
         if m in ('popitem', 'peekitem'):
             op['last'] = rng.choice([0, 1])
+        mirror_step(mirror, op, rng)
         ops.append(op)
     ops.append({'m': 'items', 'now': 1000})
     return {'cls': 'index', 'cfg': cfg, 'ops': ops, 'state_every': 4}
+
+
+def mirror_step(od, op, rng):
+    """keep an OrderedDict in step while generating, so that the operands of == / != are near
+    misses of the current contents (equal, re-ordered, one value changed, one key more or fewer)"""
+    m, k = op['m'], op.get('k')
+    try:
+        if m == 'setitem':
+            od[k] = op['v']
+        elif m == 'delitem':
+            del od[k]
+        elif m == 'setdefault':
+            od.setdefault(k, op['v'])
+        elif m == 'pop':
+            od.pop(k, None)
+        elif m == 'popitem':
+            od.popitem(last=bool(op.get('last', 1)))
+        elif m == 'clear':
+            od.clear()
+        elif m == 'update':
+            od.update(op['pairs'])
+        elif m in ('eq', 'ne'):
+            pairs = list(od.items())
+            how = rng.choice(['same', 'same', 'reorder', 'value', 'fewer', 'more', 'swapkey'])
+            if how == 'reorder' and len(pairs) > 1:
+                i = rng.randrange(len(pairs) - 1)
+                pairs[i], pairs[i + 1] = pairs[i + 1], pairs[i]
+            elif how == 'value' and pairs:
+                i = rng.randrange(len(pairs))
+                pairs[i] = (pairs[i][0], rng.choice(VALS + [0.0, 'w']))
+            elif how == 'fewer' and pairs:
+                del pairs[rng.randrange(len(pairs))]
+            elif how == 'more':
+                pairs.append((rng.choice(['zz', 77, (9,)]), rng.choice(VALS)))
+            elif how == 'swapkey' and pairs:
+                i = rng.randrange(len(pairs))
+                pairs[i] = (rng.choice(['zz', 77, (9,)]), pairs[i][1])
+            op['pairs'] = list(dict(pairs).items())
+    except KeyError:
+        pass
 
 
 def acceptor(hist, io):
@@ -87,6 +139,23 @@ def acceptor(hist, io):
                 want = '[' + ','.join('(%s,%s)' % (od[c][0], rv(od[c][1])) for c in od) + ']'
             elif m == 'clear':
                 od.clear(); want = 'n'
+            elif m == 'update':
+                ktoks = (base.line_field(line, 'ks') or '-').split(';')
+                for (kk, vv), tok in zip(op['pairs'], ktoks):
+                    c = ck(kk)
+                    od[c] = (od[c][0] if c in od else tok, vv)
+                want = 'n'
+            elif m == 'keys':
+                want = '[' + ','.join(od[c][0] for c in od) + ']'
+            elif m == 'values':
+                want = '[' + ','.join(rv(od[c][1]) for c in od) + ']'
+            elif m in ('eq', 'ne'):
+                mine = collections.OrderedDict((c, v) for c, (_, v) in od.items())
+                other = collections.OrderedDict((refdict.key_canon(kk), vv) for kk, vv in op['pairs'])
+                same = (mine == other) if op.get('ordered') else (dict(mine) == dict(other))
+                want = 'T' if same == (m == 'eq') else 'F'
+            elif m in ('pickle', 'reopen'):
+                want = 'n'
             else:
                 continue
         except KeyError:
